@@ -27,7 +27,15 @@ Defs == {
   Def("multi", "Given", "regex", "^multi (\\d+)$"),
   Def("multi", "When", "regex", "^multi (\\d+)$"),
   Def("animal", "Given", "expr", "a {animal} says {string}"),
-  Def("opt", "Then", "regex", "^opt(?: (\\d+))?$") }
+  Def("opt", "Then", "regex", "^opt(?: (\\d+))?$"),
+  Def("user", "When", "expr", "user {string} has {int} apple(s)"),
+  Def("say3", "Then", "expr", "{string} tells {string} the word {word}"),
+  Def("price", "Given", "expr", "price is {float}"),
+  Def("mv", "When", "regex", "^move (left|right) by (-?\\d+)$"),
+  Def("afail", "Then", "regex", "^async fails$"),
+  Def("both", "Given", "regex", "^both (\\w+) (\\w+)$"),
+  Def("meta", "Given", "literal", "a.b (c)?"),
+  Def("meets", "When", "expr", "a {animal} meets {int} {animal}(s)") }
 
 \* M(fn, text): the matcher of fn matches text; call = what the function records when all
 \* arguments parse; ok = FALSE if an argument fails FromStr or the function returns Err
@@ -48,11 +56,28 @@ Matches == {
   M("animal", "a cat says \"meow\"", "animal(cat,meow)", TRUE),
   M("animal", "a dog says 'woof'", "animal(dog,woof)", TRUE),
   M("opt", "opt", "opt()", TRUE),                          \* group did not participate: ""
-  M("opt", "opt 5", "opt(5)", TRUE) }
+  M("opt", "opt 5", "opt(5)", TRUE),
+  \* a multi-group parameter ({string}) followed by further typed arguments
+  M("user", "user \"bob\" has 3 apples", "user(bob,3)", TRUE),
+  M("user", "user 'al' has 1 apple", "user(al,1)", TRUE),
+  M("user", "user \"\" has 0 apples", "user(,0)", TRUE),
+  M("say3", "\"alice\" tells \"bob\" the word hi", "say3(alice,bob,hi)", TRUE),
+  M("say3", "'alice' tells \"bob\" the word hi", "say3(alice,bob,hi)", TRUE),
+  M("price", "price is 1.5", "price(1.5)", TRUE),
+  M("price", "price is -2", "price(-2)", TRUE),
+  M("mv", "move left by 3", "mv(left,3)", TRUE),
+  M("mv", "move right by -4", "mv(right,-4)", TRUE),
+  M("afail", "async fails", "afail()", FALSE),
+  M("both", "both ab cd", "both(both ab cd;ab,cd)", TRUE),
+  M("meta", "a.b (c)?", "meta()", TRUE),
+  M("meets", "a cat meets 2 dogs", "meets(cat,2,dog)", TRUE),
+  M("meets", "a dog meets 1 cat", "meets(dog,1,cat)", TRUE) }
 
 Texts == {m.text : m \in Matches} \cup
   {"a literal step ", "A literal step", "a literal", "eat x apples", "I have x cucumbers",
-   "a cow says \"moo\"", "multi", "slice ab", "with step!", "I have 3 cucumberss"}
+   "a cow says \"moo\"", "multi", "slice ab", "with step!", "I have 3 cucumberss",
+   "axb c", "a.b c", "a.b ", "move up by 3", "price is x", "user bob has 3 apples",
+   "a cat meets 2 cows", "both ab"}
 Keywords == {"Given", "When", "Then"}
 
 Dispatch(kw, text) ==
